@@ -82,6 +82,18 @@ def int_inputs(est_name):
       ctx.require('int_dtype_symmetric', ctx.eq(D[0], D[3], tol=0.0))
       ctx.require('int_dtype_self_zero', ctx.eq(D[4], 0.0, tol=0.0))
       ctx.require('int_dtype_metric_fun', ctx.eq(f(x, y), Df[0], tol=1e-12))
+    # unsigned and narrow integer types: differences / products that do not fit the type must not wrap around
+    for dt, hi in ((np.uint8, 256), (np.uint16, 60000), (np.uint64, 1000), (np.int8, 128), (np.int16, 30000), (np.int32, 100000)):
+      for _ in range(8):
+        x, y, z = rs.randint(0, hi, size=(3, 3)).astype(dt)
+        T = np.array([[x, y], [y, z], [x, z], [y, x], [x, x]], dtype=dt)
+        D = est.pair_distance(T)
+        Df = est.pair_distance(T.astype(float))
+        nm = np.dtype(dt).name
+        ctx.require('narrow_int_dtype_same_as_float_%s' % nm, ctx.all_eq(D, Df, tol=1e-12))
+        ctx.require('narrow_int_dtype_symmetric_%s' % nm, ctx.eq(D[0], D[3], tol=0.0))
+        ctx.require('narrow_int_dtype_triangle_%s' % nm, ctx.le(D[2], D[0] + D[1], tol=1e-12))
+        ctx.require('narrow_int_dtype_metric_fun_%s' % nm, ctx.and_(ctx.eq(f(x, y), Df[0], tol=1e-12), ctx.eq(f(y, x), Df[0], tol=1e-12)))
   return fn
 
 
